@@ -255,8 +255,11 @@ func (ab *rulesPair) markAddresses(l []string) {
 			// Preliminary mark group from Netspoc as needed.  Mark will
 			// be moved to group on device later if an equivalent group
 			// is found.
-			g.needed = true
-			ab.markAddresses(g.Members)
+			// Check mark to prevent endless recursion on cyclic groups.
+			if !g.needed {
+				g.needed = true
+				ab.markAddresses(g.Members)
+			}
 			continue
 		}
 		aB := ab.b.addresses[name]
